@@ -29,6 +29,7 @@ SOURCES = {
     "v3": "program p3\ninteger :: sin(10)\nx = sin(1)\nend program p3\n",
     "v4": "program p3\nx = sin(1.0)\nend program p3\n",
     "v5": "subroutine s5\nuse m1, only: aa\nx = F(A(1)) + f((a(1)))\nX = f(a(1)) + 1.0E3\nend subroutine s5\n",
+    "v6": "subroutine s6(total)\nprint *, 'total = ', total ! c\ncall f('a', i) ! it's\nwrite(6, '(a)') \"x\", y  ! \"q\nend subroutine s6\n",
     "i1": "program p3\nx = = 1\nend program p3\n",
     "i2": "subroutine s1\ninteger :: max\nif (a) then\ndo i = 1, 2\n@@@\nend do\nend if\nend subroutine s1\n",
     "i3": "program p3\ninteger :: tan\nx = sin(1, 2, 3)\nend program p3\n",
@@ -87,7 +88,7 @@ end module rich_m
 """
 SOURCES["rich"] = RICH
 SYMS = ["c3", "c8"] + sorted(k for k in SOURCES if k != "rich")
-PROBES = [("f2003", "v4"), ("f2008", "v2"), ("f2008", "v1"), ("f2003", "v5")]
+PROBES = [("f2003", "v4"), ("f2008", "v2"), ("f2008", "v1"), ("f2003", "v5"), ("f2003", "v6"), ("f2008", "v6")]
 
 
 def exhaustive(tier, flags):
@@ -115,7 +116,11 @@ def build(rnd, tier, flags):
     extra = {}
     for k in range(r.n(1, 3)):
         units, flat, g = progs.make_program(rnd, list(flags) + ["no_defined_binop_before_dotted"], max_units=2, max_stmts=3)
-        src = gen.canonical_source(flat)
+        if r.chance(50):
+            from vf import layout
+            src = layout.free_layout(flat, rnd, progs.comment_only_opts(gen.ALL_NAMES)).text
+        else:
+            src = gen.canonical_source(flat)
         extra["g%d" % k] = src
         m = src
         for _ in range(r.n(1, 2)):
@@ -124,19 +129,22 @@ def build(rnd, tier, flags):
     syms = SYMS + sorted(extra)
     steps = [r.pick(["c3", "c8"])]
     for _ in range(r.n(3, 12)):
-        steps.append(r.pick(syms) if not r.chance(20) else r.pick(["c3", "c8"]))
+        if len(steps) > 2 and r.chance(15):
+            steps.append(r.pick([x for x in steps if x not in ("c3", "c8")] or syms))     # parse something again
+        else:
+            steps.append(r.pick(syms) if not r.chance(20) else r.pick(["c3", "c8"]))
     steps += [r.pick(["c3", "c8"]), r.pick(syms)]
     if r.chance(50):
         from vf.props import c17
         name, src = r.pick(c17.CATALOGUE)
         extra["cat_" + name] = src
         steps += ["rich" if r.chance(50) else r.pick(syms), r.pick(["c3", "c8"]), "cat_" + name]
-    return {"steps": steps, "sources": extra, "meta": {}}
+    return {"steps": steps, "sources": extra, "keep_comments": r.chance(40), "meta": {}}
 
 
 # ----------------------------------------------------------------------------- child side
 
-def _run_history(steps, sources):
+def _run_history(steps, sources, keep_comments=False):
     """Executed in a forked child: returns observations per step."""
     from vf import env
     from vf.treeform import renumber_blocks as rb
@@ -151,8 +159,7 @@ def _run_history(steps, sources):
         src = sources[s]
         before = str(env.SYMBOL_TABLES)
         try:
-            reader = env.FortranStringReader(src)
-            parser = env.ParserFactory  # noqa: F841  (the most recently created parser is the global registry)
+            reader = env.FortranStringReader(src, ignore_comments=not keep_comments)
             tree = env.F03.Program(reader)
             out = {"op": s, "kind": "tree", "repr": rb(repr(tree)), "text": rb(str(tree))}
         except env.FortranSyntaxError as e:
@@ -170,14 +177,14 @@ def _run_history(steps, sources):
     return obs
 
 
-def _in_child(steps, sources):
+def _in_child(steps, sources, keep_comments=False):
     rfd, wfd = os.pipe()
     pid = os.fork()
     if pid == 0:
         try:
             os.close(rfd)
             try:
-                data = pickle.dumps(("ok", _run_history(steps, sources)))
+                data = pickle.dumps(("ok", _run_history(steps, sources, keep_comments)))
             except BaseException as e:  # noqa: BLE001
                 import traceback
                 data = pickle.dumps(("error", traceback.format_exc()))
@@ -235,10 +242,10 @@ def failing_unit(src, errtext):
 _fresh = {}
 
 
-def fresh(std, key, src):
-    k = (std, src)
+def fresh(std, key, src, keep=False):
+    k = (std, src, keep)
     if k not in _fresh:
-        o = _in_child(["c3" if std == "f2003" else "c8", "x"], {"x": src})
+        o = _in_child(["c3" if std == "f2003" else "c8", "x"], {"x": src}, keep)
         _fresh[k] = o[1]
     return _fresh[k]
 
@@ -257,7 +264,8 @@ def evaluate(case):
     sources = dict(SOURCES)
     sources.update(case.get("sources") or {})
     steps = case["steps"]
-    obs = _in_child(steps, sources)
+    keep = bool(case.get("keep_comments"))
+    obs = _in_child(steps, sources, keep)
     kinds = [o.get("kind") for o in obs if "kind" in o]
     stds = {s for s in steps if s in ("c3", "c8")}
     fail_then_ok = any(a != "tree" and b == "tree" for a, b in zip(kinds, kinds[1:]))
@@ -293,7 +301,7 @@ def evaluate(case):
                                        {"step": i, "before": o["tables_before"], "after": o["tables_after"],
                                         "source": sources[op], "steps": steps}))
         if clean:
-            f = fresh(o["std"], op, sources[op])
+            f = fresh(o["std"], op, sources[op], keep)
             if not _same(o, f):
                 prev = [s for s in steps[:i]]
                 failures.append(Result(False, "differs-from-fresh:%s:%s->%s" % (op if op in SOURCES else "gen", f["kind"], o["kind"]),
